@@ -293,7 +293,7 @@ def elf_oracle(c, out):
         want_size = a['size'] + (k if i == w['shstrndx'] else 0)
         if b['off'] != want_off or b['size'] != want_size:
             return 'section %d offset/size wrong' % i
-        if order and i != w['shstrndx'] and a['off'] + a['size'] <= w['shoff'] and a['off'] >= 0x40:
+        if order and i != w['shstrndx'] and not a['nobits'] and a['off'] + a['size'] <= w['shoff'] and a['off'] >= 0x40:
             if out[b['off']:b['off'] + b['size']] != e[a['off']:a['off'] + a['size']]:
                 return 'contents of section %d are not found at its new offset' % i
     if order:
@@ -525,6 +525,8 @@ FAKE_SSH = r'''#!/bin/sh
 printf 'ssh %s\n' "$2" >> "$FAKE_LOG"
 case "$2" in
   *"Remote system is"*) echo "Remote system is Linux fakehost 5.0 #1 SMP aarch64 GNU/Linux"; exit 0;;
+  *"--doer"*) if [ ! -x "$FAKE_REMOTE/rjrssync/rjrssync" ]; then   # what bash on a real remote says
+      echo "bash: line 1: /var/tmp/rjrssync/rjrssync: No such file or directory" >&2; exit 127; fi;;
 esac
 cmd=$(printf '%s' "$2" | sed "s#/var/tmp#${FAKE_REMOTE}#g")
 exec sh -c "$cmd"
@@ -558,7 +560,7 @@ def deploy_leg(run, lite, tmp):
     d = os.path.join(tmp, 'dep'); os.makedirs(os.path.join(d, 'src'))
     open(os.path.join(d, 'src', 'f.txt'), 'w').write('deployed')
     env = {'PATH': fb + os.pathsep + os.environ.get('PATH', ''), 'FAKE_REMOTE': remote, 'FAKE_LOG': os.path.join(tmp, 'fake.log')}
-    rc, so, se = runp([parent, '--deploy', 'ok', os.path.join(d, 'src') + '/', 'fakehost:' + os.path.join(d, 'dest') + '/'], env=env, timeout=300)
+    rc, so, se = runp([parent, '--deploy', 'ok', os.path.join(d, 'src') + '/', 'localhost:' + os.path.join(d, 'dest') + '/'], env=env, timeout=300)
     run.count('deploy-leg')
     run.case(('deploy', 'sync'), True)
     child = os.path.join(remote, 'rjrssync', 'rjrssync')
